@@ -125,11 +125,15 @@ impl Cache {
             path: path.to_path_buf(),
             source: e,
         })?;
+        #[cfg(feature = "verif")]
+        crate::verif_hooks::point("load.opened", path);
 
         // Acquire shared lock for reading (allows multiple readers)
         // Guard automatically unlocks on drop
         let _lock_guard =
             SharedLockGuard::try_acquire(&file, DEFAULT_LOCK_TIMEOUT_MS, "cache file", path);
+        #[cfg(feature = "verif")]
+        crate::verif_hooks::point("load.locked", path);
 
         let reader = BufReader::new(&file);
         Ok(serde_json::from_reader(reader)?)
